@@ -128,3 +128,33 @@ class BatonSocket:
 
     def __getattr__(self, k):
         return getattr(self._s, k)
+
+
+import contextlib
+
+
+@contextlib.contextmanager
+def library_locks(b):
+    """While active, every lock the LIBRARY creates (threading.Lock() in _core, Lock() in _abnf) is a SimLock of baton `b` —
+    the objects keep the locks they chose to make, where and when they chose to make them (the harness assigns none), and the
+    creation of a lock by a scheduled thread is itself a pair of yield points: a thread can be preempted between deciding that
+    a lock is needed and publishing it."""
+    from websocket import _abnf, _core
+
+    def make():
+        b.yield_point("alloc")
+        lk = SimLock(b, "lib")
+        b.yield_point("alloc-done")
+        return lk
+
+    class Shim:
+        def __getattr__(self, name):
+            return getattr(threading, name)
+
+        Lock = staticmethod(make)
+    old = (_core.threading, _abnf.Lock)
+    _core.threading, _abnf.Lock = Shim(), make
+    try:
+        yield
+    finally:
+        _core.threading, _abnf.Lock = old
